@@ -1,6 +1,7 @@
 package accumulation
 
 import (
+	"bytes"
 	"fmt"
 	"maps"
 	"slices"
@@ -484,8 +485,14 @@ func ParallelizedAccumulation(input ParallelizedAccumulationInput) (output Paral
 			return output, err
 		}
 	}
-	// Process results from each service accumulation
+	// Process results from each service accumulation in ascending service order:
+	// u, t′ and p are sequences, so the order must not depend on map iteration.
+	sortedServices := make([]types.ServiceID, 0, len(s))
 	for service_id := range s {
+		sortedServices = append(sortedServices, service_id)
+	}
+	slices.Sort(sortedServices)
+	for _, service_id := range sortedServices {
 		singleOutput, ok := cache[service_id]
 		if !ok {
 			singleOutput, err = runSingleReplaceService(service_id, singleInput)
@@ -551,7 +558,7 @@ func ParallelizedAccumulation(input ParallelizedAccumulationInput) (output Paral
 			serviceCount := 0
 
 			// Count occurrences of each key across all service outputs
-			for service_id := range s {
+			for _, service_id := range sortedServices {
 				singleOutput, ok := cache[service_id]
 				if !ok {
 					continue
@@ -576,6 +583,11 @@ func ParallelizedAccumulation(input ParallelizedAccumulationInput) (output Paral
 					mergedUnmatchedKeyVals = append(mergedUnmatchedKeyVals, keyValueMap[key])
 				}
 			}
+
+			// Keep the merged list in key order so that it does not depend on map iteration
+			slices.SortFunc(mergedUnmatchedKeyVals, func(x, y types.StateKeyVal) int {
+				return bytes.Compare(x.Key[:], y.Key[:])
+			})
 
 			// Update the global store with merged result
 			blockchain.GetInstance().SetPostStateUnmatchedKeyVals(mergedUnmatchedKeyVals)
